@@ -468,3 +468,17 @@ def replay_cases(prop, cases, rec, origin):
                                    'first_bucket': res.bucket,
                                    'shrink_executions': 0, 'origin': origin})
             rec.suppressed.add(res.bucket)
+
+
+GRAD_CTXS = ['default', 'default', 'default', 'no_grad', 'inference']
+
+
+def grad_ctx(name):
+    """The autograd context a case runs in: results must not depend on it."""
+    import contextlib
+    import torch
+    if name == 'no_grad':
+        return torch.no_grad()
+    if name == 'inference':
+        return torch.inference_mode()
+    return contextlib.nullcontext()
